@@ -4,6 +4,7 @@ import TR.Lemmas.FallbackStack
 import TR.Lemmas.FallbackRun
 import TR.Lemmas.FallbackRequest
 import TR.Lemmas.FallbackCount
+import TR.Lemmas.FallbackBuilder
 /-!
 # C17 — fallback never replaces a success and handles exactly the errors it should
 
@@ -27,6 +28,13 @@ Run-level theorems speak about the event log (the thing the correspondence check
 positions in it where order matters (`completion_block_in_one_piece`, `value_fn_counter_exact`,
 `callback_owner_in_log`, `result_exact_counted`), and about the operation list for what is an input and
 emits no event: the request a caller hands in (`requestOf ops c`, `request_forwarded_unchanged`).
+
+Which configuration is in force is itself a function of how the layer was built: the theorems about
+the builder hold for every chain of setter calls (any number of strategy setters, each with any user
+function, of `handle` calls with any predicate, of `name` calls, in any order) — the strategy setter
+called last is in force with the function it was given, the predicate is that of the last `handle`
+call or none, and neither slot depends on the setters of the other (`builder_strategy_last_wins`,
+`builder_predicate_independent`, `builder_behaviour_is_last_strategy`, `builder_exception_overridden`).
 -/
 namespace TR.Props.C17
 open TR TR.Fallback
@@ -570,6 +578,142 @@ theorem shortcut_always_handles (st : Strategy) (val : Nat) (rq : Request) (n : 
     afterInner (shortcut st val) rq n (.err e) = applyStrategy (shortcut st val) rq n e := by
   refine ⟨rfl, rfl, ?_⟩
   exact handled_gets_strategy _ rq n e rfl
+
+/-! ## the builder: the strategy setter called last is in force, the predicate slot is independent -/
+
+/-- Whatever was called before it (other strategy setters — `exception` included —, `handle`, `name`) and
+whatever non-strategy setter is called after it: the strategy setter called last is the strategy in force,
+with the function it was given; `build()` succeeds; the predicate is the one the `handle` calls of the
+chain leave, as if the strategy setter were not there. -/
+theorem builder_strategy_last_wins (base : Cfg) (pre post : List Setter) (f : StrategyFn)
+    (hpost : ∀ st ∈ post, st.isStrategy = false) :
+    buildChain base (pre ++ .strategy f :: post) = some (f.install { base with pred := lastHandle (pre ++ post) })
+    ∧ (∀ cfg, buildChain base (pre ++ .strategy f :: post) = some cfg → cfg.strat = f.kind) := by
+  have hs : (chainBuilder (pre ++ .strategy f :: post)).strategy = some f := by
+    rw [(chainBuilder_slots _).1, lastStrategy_append]
+    simp only [lastStrategy, lastStrategy_none_of_no_strategy post hpost]
+  have hp : (chainBuilder (pre ++ .strategy f :: post)).pred = lastHandle (pre ++ post) := by
+    rw [(chainBuilder_slots _).2, lastHandle_append, lastHandle_append]
+    simp only [lastHandle]
+  have hb : buildChain base (pre ++ .strategy f :: post) = some (f.install { base with pred := lastHandle (pre ++ post) }) := by
+    simp only [buildChain, Builder.build, hs, hp, Option.map]
+  refine ⟨hb, ?_⟩
+  intro cfg hc
+  rw [hb] at hc
+  cases hc
+  cases f <;> rfl
+
+/-- `build()` panics exactly when no strategy setter was ever called. -/
+theorem builder_needs_a_strategy (base : Cfg) (chain : List Setter) :
+    buildChain base chain = none ↔ ∀ st ∈ chain, st.isStrategy = false := by
+  constructor
+  · intro h st hst
+    cases hb : st.isStrategy with
+    | false => rfl
+    | true =>
+      exfalso
+      obtain ⟨pre, post, rfl⟩ := List.append_of_mem hst
+      cases st with
+      | strategy f =>
+        have : lastStrategy (pre ++ .strategy f :: post) ≠ none := by
+          rw [lastStrategy_append]; simp only [lastStrategy]
+          cases lastStrategy post <;> simp
+        simp only [buildChain, Builder.build, (chainBuilder_slots _).1] at h
+        cases hl : lastStrategy (pre ++ .strategy f :: post) with
+        | none => exact this hl
+        | some g => rw [hl] at h; cases h
+      | handle p => cases hb
+      | name => cases hb
+  · intro h
+    simp only [buildChain, Builder.build, (chainBuilder_slots _).1, lastStrategy_none_of_no_strategy chain h, Option.map]
+
+/-- The two slots are independent: a setter that is not `handle` (a strategy setter, `name`) leaves the
+predicate what it would be without it, a setter that is not a strategy setter leaves the strategy what it
+would be without it — wherever it stands in the chain; the predicate in force is that of the `handle`
+call made last, and none (every error is handled) when `handle` was never called. -/
+theorem builder_predicate_independent (pre post : List Setter) (st : Setter) :
+    (st.isHandle = false → (chainBuilder (pre ++ st :: post)).pred = (chainBuilder (pre ++ post)).pred)
+    ∧ (st.isStrategy = false → (chainBuilder (pre ++ st :: post)).strategy = (chainBuilder (pre ++ post)).strategy)
+    ∧ (∀ p, st = .handle p → (∀ x ∈ post, x.isHandle = false) → (chainBuilder (pre ++ st :: post)).pred = some p)
+    ∧ ((∀ x ∈ pre ++ st :: post, x.isHandle = false) → (chainBuilder (pre ++ st :: post)).pred = none) := by
+  refine ⟨?_, ?_, ?_, ?_⟩
+  · intro h
+    rw [(chainBuilder_slots _).2, (chainBuilder_slots _).2, lastHandle_append, lastHandle_append]
+    cases st with
+    | handle p => cases h
+    | strategy f => simp only [lastHandle]
+    | name => simp only [lastHandle]
+  · intro h
+    rw [(chainBuilder_slots _).1, (chainBuilder_slots _).1, lastStrategy_append, lastStrategy_append]
+    cases st with
+    | strategy f => cases h
+    | handle p => simp only [lastStrategy]
+    | name => simp only [lastStrategy]
+  · intro p hst hpost
+    subst hst
+    rw [(chainBuilder_slots _).2, lastHandle_append]
+    simp only [lastHandle, lastHandle_none_of_no_handle post hpost]
+  · intro h
+    rw [(chainBuilder_slots _).2]
+    exact lastHandle_none_of_no_handle _ h
+
+/-- Under a strategy, only that strategy's own function is read: two configurations that differ in the
+function fields of the OTHER strategies (what earlier setters may have left behind) behave alike. -/
+theorem install_reads_own_function (f : StrategyFn) (base base' : Cfg) (hp : base.pred = base'.pred)
+    (rq : Request) (n : Nat) (ri rb : IRes) :
+    resolve (f.install base) rq n ri rb = resolve (f.install base') rq n ri rb := by
+  cases base; cases base'
+  simp only at hp
+  subst hp
+  cases f <;> cases ri <;> rfl
+
+/-- The behaviour of a layer built by a chain is that of the layer built with its last strategy setter
+and its last `handle` call alone (or no `handle` call): everything called earlier is without effect. -/
+theorem builder_behaviour_is_last_strategy (base : Cfg) (pre post : List Setter) (f : StrategyFn)
+    (hpost : ∀ st ∈ post, st.isStrategy = false) (cfg : Cfg)
+    (hc : buildChain base (pre ++ .strategy f :: post) = some cfg) (rq : Request) (n : Nat) (ri rb : IRes) :
+    resolve cfg rq n ri rb = resolve (f.install { base with pred := lastHandle (pre ++ post) }) rq n ri rb := by
+  rw [(builder_strategy_last_wins base pre post f hpost).1] at hc
+  cases hc
+  rfl
+
+/-- The seeded situation, for every chain: `exception(t)` somewhere, a value-producing strategy set
+later and last — an accepted inner error gets that strategy's response, and the transformation `t` is not
+invoked. (`value` here; the other strategies through `builder_behaviour_is_last_strategy` and their
+`*_exact` theorem in the same way.) -/
+theorem builder_exception_overridden (base : Cfg) (pre mid post : List Setter) (t : IErr → IErr) (v : Resp)
+    (hpost : ∀ st ∈ post, st.isStrategy = false) (cfg : Cfg)
+    (hc : buildChain base (pre ++ .strategy (.exception t) :: (mid ++ .strategy (.value v) :: post)) = some cfg)
+    (rq : Request) (n : Nat) (e : IErr) (rb : IRes) (h : accepts cfg e = true) :
+    (resolve cfg rq n (.err e) rb).2.2 = .ok v ∧ ∀ e', Callback.exception e' ∉ (resolve cfg rq n (.err e) rb).1 := by
+  have hc' : buildChain base ((pre ++ .strategy (.exception t) :: mid) ++ .strategy (.value v) :: post) = some cfg := by
+    simpa only [List.append_assoc, List.cons_append] using hc
+  rw [(builder_strategy_last_wins base _ post (.value v) hpost).1] at hc'
+  cases hc'
+  rw [value_exact _ rq n e rb rfl h]
+  refine ⟨rfl, ?_⟩
+  intro e' hm
+  simp only [predCalls] at hm
+  split at hm <;> simp at hm
+
+/-- the chains of the seeded demo with the harness's test functions: `exception` then `value(7)` — a handled
+error gets the value; `name, exception, handle(kinds 1,2), from_request_error, name` — kind 1 gets the function of
+request and error, kind 3 comes back unchanged; `value, handle(kind 1), exception` — the transformation;
+`handle, name` alone: `build()` panics. -/
+example :
+    ((buildChain (test .value none 0) [.strategy (.exception strategyException), .strategy (.value (strategyValue 7))]).map
+        fun cfg => resolve cfg ⟨1, 5⟩ 0 (.err ⟨1, 0⟩) (.ok ⟨0, 0, 0⟩))
+      = some ([], false, .ok ⟨7, 0, 0⟩)
+    ∧ ((buildChain (test .value none 0) [.name, .strategy (.exception strategyException), .handle (maskPred 6),
+          .strategy (.fromReqErr strategyFromReqErr), .name]).map fun cfg =>
+          (resolve cfg ⟨1, 5⟩ 0 (.err ⟨1, 0⟩) (.ok ⟨0, 0, 0⟩), resolve cfg ⟨1, 5⟩ 0 (.err ⟨3, 0⟩) (.ok ⟨0, 0, 0⟩)))
+      = some (([.predicate ⟨1, 0⟩ true, .fromReqErr ⟨1, 5⟩ ⟨1, 0⟩], false, .ok ⟨0, 1, 501⟩),
+              ([.predicate ⟨3, 0⟩ false], false, .inner ⟨3, 0⟩))
+    ∧ ((buildChain (test .value none 0) [.strategy (.value (strategyValue 0)), .handle (maskPred 2),
+          .strategy (.exception strategyException)]).map fun cfg => resolve cfg ⟨1, 5⟩ 0 (.err ⟨1, 4⟩) (.ok ⟨0, 0, 0⟩))
+      = some ([.predicate ⟨1, 4⟩ true, .exception ⟨1, 4⟩], false, .inner ⟨11, 4⟩)
+    ∧ ((buildChain (test .value none 0) [.handle (maskPred 2), .name]).map fun cfg => cfg.strat) = none := by
+  decide
 
 /-! ## two fallback layers stacked: the composition of two instances of the decision function -/
 
